@@ -212,6 +212,12 @@ class C12(PropBase):
 
     def _input(self, rng, v, w):
         r = rng.random()
+        if isinstance(w, dict) and "$dict" in w and len(w["$dict"]) >= 1 and rng.random() < 0.08:
+            # the wire mapping as a defaultdict with one key missing: a lookup of an absent key would
+            # *insert* it - a routine that reads its input that way changes what the caller handed over
+            pairs = copy.deepcopy(w["$dict"])
+            pairs.pop(rng.randrange(len(pairs)))
+            return {"$ddict": pairs}
         if r < 0.25:
             return copy.deepcopy(v)
         if r < 0.5:
